@@ -17,6 +17,10 @@ type StreamCfg struct {
 	Canonical  bool // no duplication of singular fields / no padding: "plain" values
 	MapBurst   int  // >0: prefer map-bearing fields and emit up to MapBurst entries per pick
 	keyCluster uint64 // != 0: base of the 64-bit map keys of the current burst
+	// StrCluster != "": string map keys are this prefix plus one rune from
+	// orderRunes, so that the keys of one map differ first in a place where
+	// UTF-8 byte order, UTF-16 code-unit order and collation orders disagree
+	StrCluster string
 	ListBurst  int  // >0: a picked repeated field is emitted up to ListBurst times in a row (many chunks, long lists)
 	// Avoid holds known-finding classes the generator must steer away from
 	// (see known_findings.json). Each avoided draw is counted in Excluded.
@@ -98,6 +102,11 @@ var genStr = rapid.OneOf(
 		return string(b)
 	}),
 )
+
+// orderRunes end clustered string keys: runes whose relative order differs
+// between bytewise UTF-8 (the reference's), UTF-16 code units (astral runes sort
+// below U+E000..U+FFFF there), case-folded and locale orders.
+var orderRunes = []string{"", "a", "B", "b", "Z", "~", "\x7f", "\u0080", "é", "É", "\u07ff", "\u0800", "\ud7ff", "\ue000", "\uff5e", "\ufffd", "\uffff", "\U00010000", "\U0001F600", "\U0010FFFF", "a\x00", "aa"}
 
 // lengths at the 1->2 and 2->3 byte boundaries of the length varint
 var boundaryLen = rapid.Custom(func(t *rapid.T) int {
@@ -409,6 +418,11 @@ func (c *StreamCfg) mapEntry(t *rapid.T, fd protoreflect.FieldDescriptor, depth 
 			default:
 				body = protowire.AppendVarint(body, v)
 			}
+			return
+		}
+		if c.StrCluster != "" && kfd.Kind() == protoreflect.StringKind {
+			c.label("string-key-cluster")
+			body = c.lenPrefixed(t, body, []byte(c.StrCluster+rapid.SampledFrom(orderRunes).Draw(t, "clusterrune")))
 			return
 		}
 		body = c.scalarPayload(t, body, kfd)
